@@ -6,6 +6,7 @@ import (
 	"mellium.im/xmpp/bin"
 	"mellium.im/xmpp/bookmarks"
 	"mellium.im/xmpp/disco"
+	"mellium.im/xmpp/disco/info"
 	"mellium.im/xmpp/file"
 	"mellium.im/xmpp/form"
 	"mellium.im/xmpp/history"
@@ -91,6 +92,19 @@ func witnesses() map[string]func(c *core.Case) {
 
 		// a slot decoded from a reply without a <put/> URL: Put dereferences the nil URL
 		"codec:S:upload.Slot:panic@upload.Slot.Put:nil-deref": witnessDoc("upload.Slot", `<slot xmlns="urn:xmpp:http:upload:0"><get url="https://download.example.org/f"/></slot>`),
+
+		// Info.Hash sorts the Identity/Features/Form slices of its (value) receiver in
+		// place: the caller's Info is reordered by computing its hash
+		"codec:I:disco.Info:Hash:caller-slices-reordered": func(c *core.Case) {
+			checkInfoHash(c, []info.Identity{{Category: "client", Type: "pc"}, {Category: "account", Type: "registered"}},
+				[]info.Feature{{Var: "urn:xmpp:z"}, {Var: "jabber:iq:a"}}, nil, "Hash")
+		},
+		// ... and sort.Strings on the slice Data.Raw returns reorders the values
+		// (the lines of a text-multi field) of the form itself
+		"codec:I:disco.Info:Hash:form-values-reordered": func(c *core.Case) {
+			checkInfoHash(c, nil, nil, []form.Data{*form.New(form.Result, form.Hidden("FORM_TYPE", form.Value("urn:a")),
+				form.TextMulti("motd", form.Value("second line is b"), form.Value("a comes first after hashing")))}, "Hash")
+		},
 
 		// the extension's own xmlns attribute is passed through and the encoder
 		// adds another one
